@@ -196,6 +196,8 @@ class PEval:
                 return C(int({"Eq": x == y, "Ne": x != y, "Lt": x < y, "Le": x <= y, "Gt": x > y, "Ge": x >= y}[base]))
             if base in ("Eq", "Ne") and a is not None and b is not None and a[0] == "sym" and b[0] == "sym" and a[1] == b[1]:
                 return C(int((a[2] == b[2]) == (base == "Eq")))
+            if base in ("Eq", "Ne", "Lt", "Le", "Gt", "Ge") and a is not None and b is not None and a[0] == "sym" and b[0] == "sym":
+                return ("cmp", base, a, b)   # a comparison of two opaque quantities: symbolic, forks like an unknown
             return None
         return None
 
